@@ -23,7 +23,9 @@ RULE = (
     '(maximal runs of >= 2 samples, exact ends). Both readings of '
     'threshold*step (exact / rounded double) are accepted. A second part '
     'drives get_mystery_jump_mask and get_true_interval_masks directly on '
-    'generated boolean vectors. Non-trivial: at least one interstorm '
+    'generated boolean vectors; a third runs classify a second time with other '
+    'thresholds and requires the tables to describe the classification whose '
+    'thresholds are recorded. Non-trivial: at least one interstorm '
     'interval and one of: an unexplained rise inside a dry spell, an '
     'exact-threshold increment, a dry spell before the first rain, a gap; '
     'distinct = SHA-1 of the case.'
@@ -154,7 +156,70 @@ def mask_cases(draw):
             'rain': draw(st.lists(st.booleans(), min_size=n, max_size=n))}
 
 
+# ------------------------------------------------ a second classify attempt
+
+@st.composite
+def reclassify_cases(draw, tier):
+    record = draw(gen_records.records(max_steps=24))
+    units = record.get('thr_units', 4)
+    other = draw(st.sampled_from([u for u in (1, 2, 3, 4, 6, 8, 12, 16)
+                                  if u != units]))
+    record['j2'] = (other / 8.0) * 3600.0 / record['dt']
+    record['s2'] = draw(st.sampled_from([record['s'], record['s'] * 2]))
+    return record
+
+
+def check_reclassify(case):
+    """`classify` run a second time with other thresholds: whether the
+    package refuses it (as it does today) or carries it out, the tables must
+    describe ONE classification - the one whose thresholds are recorded."""
+    from vfw.props.C03 import threshold_readings
+    connection = cc.load_or_reject(case)
+    try:
+        error = cc.classify_memory(connection, case['s'], case['j'])
+        if error is not None:
+            cc.raise_classify_error(error, connection)
+        second = cc.classify_memory(connection, case['s2'], case['j2'])
+        step, labels, stretches = model_classify.read_loaded(connection)
+        t = cc.tables(connection)
+    finally:
+        connection.close()
+    in_force = (case['s'], case['j']) if second is not None else (
+        case['s2'], case['j2'])
+    if t['thresholds'] != [in_force]:
+        raise Violation(
+            'thresholds-row-does-not-match-outcome',
+            'second classify {}: thresholds {}'.format(
+                'refused' if second is not None else 'accepted',
+                t['thresholds']))
+    failure = None
+    for thr in threshold_readings(step, in_force[1]):
+        models = {
+            label: model_classify.classify_stretch(
+                stretches[label], step, in_force[0], in_force[1],
+                jump_threshold=thr)
+            for label in labels if stretches.get(label)}
+        try:
+            inter = verify_flags(t, models)
+            failure = None
+            break
+        except Violation as vio:
+            failure = failure or vio
+    if failure is not None:
+        raise Violation(failure.signature + ':after-second-classify',
+                        failure.detail)
+    out = {'second-refused' if second is not None else 'second-accepted'}
+    if inter:
+        out.add('nontrivial')
+    return out
+
+
 PARTS = [
+    Part('reclassify', check_reclassify,
+         strategy=lambda tier: reclassify_cases(tier),
+         budget={'quick': 100, 'thorough': 1500},
+         describe='second classify with other thresholds: refused or '
+                  'carried out, never a blend'),
     Part('records', check,
          strategy=lambda tier: st.one_of(
              gen_records.records(max_steps=30 if tier == 'quick' else 60),
